@@ -206,11 +206,87 @@ Definition sp_setup (i o : tree) : bool :=
   | None => true
   end.
 
+(* ------------------------------------------------------------------ fn 3: recorded concurrent histories *)
+(* input (ps (id ...) unknown-sent ((id closed ((typ ((chunk ...) ...)) ...) (packet ...)) ...))
+   output (((event ...) (#write ...) close-returned) ...) connection-errors-seen (problem ...)) *)
+Definition life_of_tree (ps : Z) (c : tree) : chan_life :=
+  {| cl_id := t_int (t_nth 0 c); cl_ps := ps;
+     cl_msgs := map (fun m => {| m_ps := ps; m_typ := t_int (t_nth 0 m);
+                                 m_pkgs := map (fun p => map t_bytes (t_list p)) (t_list (t_nth 1 m)) |}) (t_list (t_nth 2 c));
+     cl_close := t_bool (t_nth 1 c) |}.
+
+(* the packages NextPackage hands out for these packets: deliveries, header-only packets, the synthetic final DONE *)
+Definition deliveries (ps : list packet_in) : list tree :=
+  map ev_tree (filter is_queued (concat (fst (rx_run 0 0 rx_init ps)))).
+
+Definition run_conc (i : tree) : tree :=
+  let ps := t_int (t_nth 0 i) in
+  let chans := t_list (t_nth 3 i) in
+  TL [TL (map (fun c =>
+               TL [TL (deliveries (map packet_of_tree (t_list (t_nth 3 c))));
+                   (match chan_writes (life_of_tree ps c) with Some ws => TL (map TB ws) | None => TL [TI (-1)] end);
+                   TI 1]) chans);
+      t_nth 2 i;
+      TL []].
+
+Fixpoint nodupb (l : list Z) : bool :=
+  match l with [] => true | x :: r => negb (memz x r) && nodupb r end.
+
+(* the transport writes carrying one id: the id everywhere, numbers 0, 1, 2, ... mod 256 (channel 0: always 0), the first
+   one the header-only SETUP packet (ids > 0), a CLOSE packet only as the last one, the bodies in between = the payloads *)
+Fixpoint sp_numbers (id nr : Z) (ws : list bytes) : bool :=
+  match ws with
+  | [] => true
+  | w :: r =>
+    match parse_packet w with
+    | None => false
+    | Some (t, s, len, c, n, wi, body) =>
+        (c =? id) && (len =? 8 + zlen body) && (n =? (if 0 <? id then nr mod 256 else 0)) &&
+        (if t =? buf_close then match r with [] => true | _ :: _ => false end else true) &&
+        sp_numbers id (nr + 1) r
+    end
+  end.
+
+Definition sp_chan_writes (c : chan_life) (ws : list bytes) : bool :=
+  sp_numbers (cl_id c) 0 ws &&
+  (if 0 <? cl_id c
+   then match ws with
+        | w0 :: rest => (log_type w0 =? buf_setup) && list_Z_eqb (log_body w0) [] &&
+                        list_Z_eqb (concat (map log_body (filter (fun w => negb (log_type w =? buf_close)) rest)))
+                                   (concat (map (fun m => payload_of (m_pkgs m)) (cl_msgs c))) &&
+                        (if cl_close c then existsb (fun w => log_type w =? buf_close) rest else true)
+        | [] => false
+        end
+   else list_Z_eqb (concat (map log_body ws))
+                   (concat (map (fun m => payload_of (m_pkgs m)) (cl_msgs c)) ++ (if cl_close c then [tok_logout; 0] else []))).
+
+Definition sp_conc (i o : tree) : bool :=
+  let ps := t_int (t_nth 0 i) in
+  let ids := ids_of_tree (t_nth 1 i) in
+  let chans := t_list (t_nth 3 i) in
+  let outs := t_list (t_nth 0 o) in
+  (* every NewChannel that returned got an id of its own; the peer saw exactly these channels *)
+  nodupb ids &&
+  list_Z_eqb (map (fun c => t_int (t_nth 0 c)) chans) (filter (fun k => memz k ids) (map (fun c => t_int (t_nth 0 c)) chans)) &&
+  (length chans =? length ids)%nat && (length outs =? length chans)%nat &&
+  (* per channel: exactly what the server sent to it, in order; its own id and consecutive numbers on what it wrote *)
+  forallb (fun co =>
+             let c := fst co in let oc := snd co in
+             tree_eqb (t_nth 0 oc) (TL (deliveries (map packet_of_tree (t_list (t_nth 3 c))))) &&
+             forallb (fun t => match t with TB _ => true | _ => false end) (t_list (t_nth 1 oc)) &&
+             sp_chan_writes (life_of_tree ps c) (map t_bytes (t_list (t_nth 1 oc))) &&
+             (t_int (t_nth 2 oc) =? 1))
+          (combine chans outs) &&
+  (* packets for ids that do not exist: one connection error each, nothing else happened *)
+  (t_int (t_nth 1 o) =? t_int (t_nth 2 i)) &&
+  match t_nth 2 o with TL [] => true | _ => false end.
+
 (* ------------------------------------------------------------------ dispatch *)
 Definition run (fn : Z) (i : tree) : tree :=
   match fn with
   | 1 => run_routing i
   | 2 => run_tx i
+  | 3 => run_conc i
   | 4 => run_setup i
   | _ => tbad
   end.
@@ -219,6 +295,7 @@ Definition spec (fn : Z) (i o : tree) : bool :=
   match fn with
   | 1 => sp_routing i o
   | 2 => sp_tx i o
+  | 3 => sp_conc i o
   | 4 => sp_setup i o
   | _ => false
   end.
